@@ -4,7 +4,7 @@ MUTSELF = ("sub", "R16-mut-self", r"\A", "", 0)
 WRAP = ("wrapcalls", "R6-closure-wrap", r"(?:std::sync::)?Arc::new", "vx_wrap()", -1)
 def setter(*extra):
     # `mut self` setters: the template declares `self` by value; re-bind it mutably at the start of the body
-    return dict(file="fbconfig", rules=[("sub", "R16-mut-self", r"\bself\b", "self_", None), ("inject", None, "start", "let mut self_ = self;")] + list(extra))
+    return dict(file="fbconfig", rules=[("sub", "R16-mut-self", r"\bself\b", "self_", -1), ("inject", None, "start", "let mut self_ = self;")] + list(extra))
 UNIT = dict(
     serves=["C06", "C17"],
     files={"tlconfig": TL + "config.rs", "tllayer": TL + "layer.rs", "fbconfig": FB + "config.rs", "fblayer": FB + "layer.rs"},
@@ -13,10 +13,12 @@ UNIT = dict(
     extra_params=[],
     fns={
         "DynamicTimeout::new": dict(file="tlconfig"),
+        "DynamicTimeout::clone@Clone": dict(file="tlconfig"),
+        "TimeLimiterConfig::clone@Clone": dict(file="tlconfig"),
         "TimeLimiterLayer::new": dict(file="tllayer", rules=[("sub", "R10-into-arc", r"config\.into\(\)", "Arc::new(config)", 1)]),
         "TimeLimiterConfigBuilder::timeout_duration": dict(file="tlconfig"),
         "TimeLimiterConfigBuilder::timeout_fn": dict(file="tlconfig"),
-        "TimeLimiterConfigBuilder::cancel_running_future": dict(file="tlconfig", rules=[("sub", "R16-mut-self", r"\bself\b", "self_", None), ("inject", None, "start", "let mut self_ = self;")]),
+        "TimeLimiterConfigBuilder::cancel_running_future": dict(file="tlconfig", rules=[("sub", "R16-mut-self", r"\bself\b", "self_", -1), ("inject", None, "start", "let mut self_ = self;")]),
         "TimeLimiterConfigBuilder::build": dict(file="tlconfig", rules=[("sub", "R9-paths", r"crate::TimeLimiterLayer", "TimeLimiterLayer", -1)]),
         "FallbackLayer::new": dict(file="fblayer"),
         "FallbackConfigBuilder::new": dict(file="fbconfig", rules=[("sub", "R6-name", r"\"[^\"]*\"\.to_string\(\)", "vx_wrap()", 1)]),
@@ -46,7 +48,7 @@ UNIT["files"]["cbconfig"] = CB + "config.rs"
 UNIT["files"]["cblayer"] = CB + "layer.rs"
 UNIT["serves"] = ["C04", "C06", "C17"]
 def cbsetter():
-    return dict(file="cbconfig", rules=[("sub", "R16-mut-self", r"\bself\b", "self_", None), ("inject", None, "start", "let mut self_ = self;")])
+    return dict(file="cbconfig", rules=[("sub", "R16-mut-self", r"\bself\b", "self_", -1), ("inject", None, "start", "let mut self_ = self;")])
 for _n in ["failure_rate_threshold", "sliding_window_type", "sliding_window_size", "sliding_window_duration", "wait_duration_in_open", "permitted_calls_in_half_open",
            "minimum_number_of_calls", "slow_call_duration_threshold", "slow_call_rate_threshold"]:
     UNIT["fns"]["CircuitBreakerConfigBuilder::" + _n] = cbsetter()
@@ -57,7 +59,7 @@ UNIT["fns"]["CircuitBreakerConfigBuilder::build"] = dict(file="cbconfig", rules=
 UNIT["fns"]["CircuitBreakerLayer::new"] = dict(file="cblayer", rules=[("sub", "R10-into-arc", r"config\.into\(\)", "Arc::new(config)", 1)], skip_sig_check=False)
 UNIT["types"] += [("struct", "CircuitBreakerConfigBuilder", "cbconfig"), ("struct", "CircuitBreakerConfig", "cbconfig"), ("enum", "SlidingWindowType", "cbconfig")]
 
-CBMUT = [("sub", "R16-mut-self", r"\bself\b", "self_", None), ("inject", None, "start", "let mut self_ = self;")]
+CBMUT = [("sub", "R16-mut-self", r"\bself\b", "self_", -1), ("inject", None, "start", "let mut self_ = self;")]
 CBLISTEN = ("wrapcalls", "R6-closure-wrap", r"(?:tower_resilience_core::)?FnListener::new", "vx_wrap::<Listener>()", 1)
 UNIT["fns"]["CircuitBreakerConfigBuilder::name"] = dict(file="cbconfig", rules=CBMUT + [("sub", "R6-into", r"\bn\.into\(\)", "vx_wrap()", 1)])
 UNIT["fns"]["CircuitBreakerConfigBuilder::failure_classifier"] = dict(file="cbconfig")
